@@ -50,3 +50,34 @@ Definition str_insert (s : str) (i : N) (x : str) : outcome str :=
   if i <=? len s then Ret (firstn (N.to_nat i) s ++ x ++ skipn (N.to_nat i) s) else Panic.
 Definition str_remove (s : str) (i : N) : outcome str :=
   if i <? len s then Ret (firstn (N.to_nat i) s ++ skipn (S (N.to_nat i)) s) else Panic.
+
+(* `s.chars()`: the code points of a (well-formed) UTF-8 text.  One character is read at a time by the width its lead
+   byte announces; on ill-formed input the result is unspecified (Rust `str`s are always well formed: the theorems
+   that use [str_chars] assume [utf8_valid]).  `s.chars().position(f)` is [chars_positionN]. *)
+Fixpoint str_chars (s : str) : list N :=
+  match s with
+  | [] => []
+  | b :: r =>
+      if b <? 128 then b :: str_chars r
+      else if b <? 224 then
+        match r with
+        | c1 :: r' => ((b - 192) * 64 + (c1 - 128)) :: str_chars r'
+        | [] => [b]
+        end
+      else if b <? 240 then
+        match r with
+        | c1 :: c2 :: r' => ((b - 224) * 4096 + (c1 - 128) * 64 + (c2 - 128)) :: str_chars r'
+        | _ => [b]
+        end
+      else
+        match r with
+        | c1 :: c2 :: c3 :: r' => ((b - 240) * 262144 + (c1 - 128) * 4096 + (c2 - 128) * 64 + (c3 - 128)) :: str_chars r'
+        | _ => [b]
+        end
+  end.
+
+Definition chars_positionN (f : N -> bool) (s : str) : option N := positionN f (str_chars s).
+
+(* `v[i] = x` on a Vec: panics when i is out of range *)
+Definition list_set {A} (l : list A) (i : N) (x : A) : outcome (list A) :=
+  if i <? len l then Ret (set_nth (N.to_nat i) x l) else Panic.
